@@ -2,7 +2,7 @@
 from ..core import ints, hx
 from . import _plan
 ID = "C13"
-PROPS = ["F1Verif.Props.C13", "F1Verif.Props.FactsC13", "F1Verif.Props.C15", "F1Verif.Props.Pipeline", "F1Verif.Props.RefineC13", "F1Verif.Props.RefineC13Q"]
+PROPS = ["F1Verif.Props.C13", "F1Verif.Props.FactsC13", "F1Verif.Props.C15", "F1Verif.Props.Pipeline", "F1Verif.Props.RefineC13", "F1Verif.Props.RefineC13Q", "F1Verif.Props.FloatSpec", "F1Verif.Props.C13Float"]
 RULE = ("relational correspondence on api.WithJitter (random source internal): the harness logs (rate_k, out_k) for "
         "scripted rate sequences — constant, bursty (R,0), (R,0,0,0), zero-heavy, ramps, small rates 1-3, large rates — "
         "at jitter 0, 0.5, 2, 12.25, 20, 50, 75, 99.875 percent over 200 to 20000 ticks (10^5-10^6 in the thorough tier); "
@@ -114,5 +114,5 @@ def distribution(recs):
 
 MANIFEST = {
  "text": "For every run whose steps are admissible (out >= 0; nothing emitted while rate+carry <= 0; otherwise |out - (rate+carry)| <= j/100*(rate+carry) + 1/2 + slack): the running totals telescope (C13_telescope), the carry and hence the difference of the running totals stays within (j/100*R + 1/2 + slack)/(1 - j/100) forever for rates in [0,R] and j < 100 (C13_bounded, C13_totals_close; induction with the bound as a fixed point), values are non-negative and within jitter percent plus rounding of rate+carry (C13_nonneg, C13_step_range), zero jitter is the identity (C13_zero_identity) and a config-file stage is built with the jitter it spells — an explicit 0 included — the default section's only when it omits it (C15_stage_jitter); the integer checker applied to observed runs decides exactly the relation of the theorems (admissibleB_iff). Any length, any random outcomes.",
- "note": "Relational model: the random factor is an arbitrary element of [1-j/100, 1+j/100]; the tie checks that every observed step of the real WithJitter is admissible. The 1/1000 slack for float evaluation is part of the relation. math.Cos/rand assumed to stay in range.",
- "technique": "Lean 4 theorems over Q (telescoping sum, invariant bound as fixed point; Mathlib linarith/nlinarith) + relational trace acceptance of the real function"}
+ "note": "Relational model: the random factor is an arbitrary element of [1-j/100, 1+j/100]; the tie checks that every observed step of the real WithJitter is admissible. The 1/1000 slack for float evaluation is part of the relation - and is now justified by theorems about the regenerated closure: jitter_body_refines (the closure executes jitterStepG in any arithmetic), jitterStepG_rat (exact arithmetic: admissible with slack 0), jitterStepG_fp (ANY arithmetic satisfying FPSpec - binary64 without under/overflow -, rates and balances up to 1e9: admissible with slack 1/1000, and the float balance is exactly the integer requested - out), C13_generated_run / C13_generated_run_float (whole runs). math.Cos/rand assumed to stay in range; that Go's float64 satisfies FPSpec is IEEE 754 conformance, assumed.",
+ "technique": "Lean 4 theorems over Q (telescoping sum, invariant bound as fixed point; Mathlib linarith/nlinarith); refinement of the regenerated MiniGo closure; rounding-error analysis over an abstract floating-point specification (FPSpec); + relational trace acceptance of the real function"}
